@@ -1108,6 +1108,9 @@ class Translator:
         sname = self.add_field(owner, n['name'], ft)
         if sname is None or not sname.startswith('struct '):
             raise Unsupported('member %s of non-struct %s (%s)' % (n['name'], bcls, sname))
+        if sname[7:] in self.union_structs and ft.ptr > 0:
+            cell = ('%s->__u' % btext) if n.get('isArrow') else ('(%s).__u' % btext)
+            return '(*(%s*)&%s)' % (ft.c().strip(), cell)
         acc = ('%s->%s' % (btext, n['name'])) if n.get('isArrow') else ('%s.%s' % (btext, n['name']))
         if not n.get('isArrow') and not re.fullmatch(r'[A-Za-z_][A-Za-z0-9_.>\-]*', btext):
             acc = '(%s).%s' % (btext, n['name'])
@@ -1813,7 +1816,12 @@ class Translator:
             if not body:
                 body = '  char _empty;\n'
             if s in self.union_structs:
-                body = '  union {\n%s  };\n' % body
+                if all(t.ptr > 0 and not t.dims for t in fields.values()):
+                    # a union of pointers is one pointer-sized cell; members are typed views of it (a C union would make
+                    # cbmc read the second member through byte extraction, which loses the pointer's value set)
+                    body = '  void *__u;\n'
+                else:
+                    body = '  union {\n%s  };\n' % body
             out.append('struct %s {\n%s};' % (s, body))
             defined.add(s)
             emit_vecs_ready(defined)
